@@ -29,10 +29,22 @@ import (
 
 // ---------- trees ----------
 
+// a snapshot of the tree: the volumes with their file objects, and for each
+// file the volumes nested in it (through its sections), recursively
+type fnode struct {
+	f    *uefi.File
+	kids []*vnode
+}
+type vnode struct {
+	fv    *uefi.FirmwareVolume
+	files []*fnode
+}
+type snapT []*vnode
+
 type tree struct {
 	root uefi.Firmware
 	fvs  []*uefi.FirmwareVolume
-	orig [][]*uefi.File // the file objects of each volume as built
+	orig snapT // the tree as built
 }
 
 func gidOf(v *big.Int) guid.GUID {
@@ -96,81 +108,206 @@ func uiSection(field string) *uefi.Section {
 	return sec
 }
 
+// parser of the tree syntax: vols := vol ('/' vol)*; vol := ” | file (',' file)*;
+// file := guid.type.size[.ui] ['<' vols '>']
+type parser struct {
+	s   string
+	pos int
+}
+
+func (p *parser) peek() byte {
+	if p.pos < len(p.s) {
+		return p.s[p.pos]
+	}
+	return 0
+}
+
+func (p *parser) vols() []*uefi.FirmwareVolume {
+	var r []*uefi.FirmwareVolume
+	for {
+		r = append(r, p.vol())
+		if p.peek() != '/' {
+			return r
+		}
+		p.pos++
+	}
+}
+
+func (p *parser) vol() *uefi.FirmwareVolume {
+	fv := &uefi.FirmwareVolume{}
+	if c := p.peek(); c == 0 || c == '/' || c == '>' {
+		return fv
+	}
+	for {
+		fv.Files = append(fv.Files, p.file())
+		if p.peek() != ',' {
+			return fv
+		}
+		p.pos++
+	}
+}
+
+func (p *parser) file() *uefi.File {
+	start := p.pos
+	for c := p.peek(); c != 0 && c != ',' && c != '/' && c != '<' && c != '>'; c = p.peek() {
+		p.pos++
+	}
+	fld := strings.Split(p.s[start:p.pos], ".")
+	f := &uefi.File{}
+	f.Header.GUID = gidOf(unBig(fld[0]))
+	f.Header.Type = uefi.FVFileType(UnN(fld[1]))
+	f.Header.ExtendedSize = UnN(fld[2])
+	f.Type = f.Header.Type.String()
+	if len(fld) > 3 { // the UI section comes first (Find lists the file before anything nested in it)
+		f.Sections = append(f.Sections, uiSection(fld[3]))
+	}
+	if p.peek() == '<' {
+		p.pos++
+		for _, fv := range p.vols() { // one FIRMWARE_VOLUME_IMAGE section per nested volume
+			sec := &uefi.Section{Encapsulated: []*uefi.TypedFirmware{uefi.MakeTyped(fv)}}
+			sec.Header.Type = uefi.SectionTypeFirmwareVolumeImage
+			sec.Type = sec.Header.Type.String()
+			f.Sections = append(f.Sections, sec)
+		}
+		if p.peek() != '>' {
+			panic("bad tree in case file: missing >")
+		}
+		p.pos++
+	}
+	return f
+}
+
 func buildTree(s string) *tree {
 	t := &tree{}
 	br := &uefi.BIOSRegion{}
 	if s != "-" {
-		for _, vs := range strings.Split(s, "/") {
-			fv := &uefi.FirmwareVolume{}
-			if vs != "" {
-				for _, fs := range strings.Split(vs, ",") {
-					p := strings.Split(fs, ".")
-					f := &uefi.File{}
-					f.Header.GUID = gidOf(unBig(p[0]))
-					f.Header.Type = uefi.FVFileType(UnN(p[1]))
-					f.Header.ExtendedSize = UnN(p[2])
-					f.Type = f.Header.Type.String()
-					if len(p) > 3 {
-						f.Sections = []*uefi.Section{uiSection(p[3])}
-					}
-					fv.Files = append(fv.Files, f)
-				}
-			}
-			t.fvs = append(t.fvs, fv)
-			t.orig = append(t.orig, append([]*uefi.File{}, fv.Files...))
+		p := &parser{s: s}
+		t.fvs = p.vols()
+		if p.pos != len(s) {
+			panic("bad tree in case file: " + s)
+		}
+		for _, fv := range t.fvs {
 			br.Elements = append(br.Elements, uefi.MakeTyped(fv))
 		}
 	}
 	t.root = br
+	t.orig = t.snap()
 	return t
 }
 
-func (t *tree) snap() [][]*uefi.File {
-	s := make([][]*uefi.File, len(t.fvs))
+// the volumes nested in a file, in section order
+func nestedVols(f *uefi.File) []*uefi.FirmwareVolume {
+	var r []*uefi.FirmwareVolume
+	var sec func(s *uefi.Section)
+	sec = func(s *uefi.Section) {
+		for _, e := range s.Encapsulated {
+			switch v := e.Value.(type) {
+			case *uefi.FirmwareVolume:
+				r = append(r, v)
+			case *uefi.Section:
+				sec(v)
+			}
+		}
+	}
+	for _, s := range f.Sections {
+		sec(s)
+	}
+	return r
+}
+
+func snapVol(fv *uefi.FirmwareVolume) *vnode {
+	v := &vnode{fv: fv}
+	for _, f := range fv.Files {
+		n := &fnode{f: f}
+		for _, k := range nestedVols(f) {
+			n.kids = append(n.kids, snapVol(k))
+		}
+		v.files = append(v.files, n)
+	}
+	return v
+}
+
+func (t *tree) snap() snapT {
+	s := make(snapT, len(t.fvs))
 	for i, fv := range t.fvs {
-		s[i] = append([]*uefi.File{}, fv.Files...)
+		s[i] = snapVol(fv)
 	}
 	return s
 }
 
-func showSnap(s [][]*uefi.File) string {
+func showVols(s []*vnode) string {
 	vols := make([]string, len(s))
 	for i, v := range s {
-		fs := make([]string, len(v))
-		for j, f := range v {
+		fs := make([]string, len(v.files))
+		for j, n := range v.files {
+			f := n.f
 			fs[j] = gidHex(f.Header.GUID) + "." + N(uint64(f.Header.Type)) + "." + N(f.Header.ExtendedSize)
+			if len(n.kids) > 0 {
+				fs[j] += "<" + showVols(n.kids) + ">"
+			}
 		}
 		vols[i] = strings.Join(fs, ",")
 	}
-	return "[" + strings.Join(vols, "/") + "]"
+	return strings.Join(vols, "/")
 }
 
-func sameSnap(a, b [][]*uefi.File) int { // -1 = same objects in the same order, else first differing volume
+func showSnap(s snapT) string { return "[" + showVols(s) + "]" }
+
+// same volume and file objects in the same order at every depth
+func sameVols(a, b []*vnode) bool {
+	if len(a) != len(b) {
+		return false
+	}
 	for i := range a {
-		if len(a[i]) != len(b[i]) {
-			return i
+		if a[i].fv != b[i].fv || len(a[i].files) != len(b[i].files) {
+			return false
 		}
-		for j := range a[i] {
-			if a[i][j] != b[i][j] {
-				return i
+		for j := range a[i].files {
+			if a[i].files[j].f != b[i].files[j].f || !sameVols(a[i].files[j].kids, b[i].files[j].kids) {
+				return false
 			}
+		}
+	}
+	return true
+}
+
+func sameSnap(a, b snapT) int { // -1 = same, else the first differing top-level volume
+	if len(a) != len(b) {
+		return 0
+	}
+	for i := range a {
+		if !sameVols(a[i:i+1], b[i:i+1]) {
+			return i
 		}
 	}
 	return -1
 }
 
-// s without every file whose GUID is in gs
-func minusGuids(s [][]*uefi.File, gs map[guid.GUID]bool) [][]*uefi.File {
-	r := make([][]*uefi.File, len(s))
+// s without every file whose GUID is in gs, at every depth (a file goes with
+// everything nested in it)
+func minusGuids(s []*vnode, gs map[guid.GUID]bool) snapT {
+	r := make(snapT, len(s))
 	for i, v := range s {
-		r[i] = []*uefi.File{}
-		for _, f := range v {
-			if !gs[f.Header.GUID] {
-				r[i] = append(r[i], f)
+		nv := &vnode{fv: v.fv}
+		for _, n := range v.files {
+			if !gs[n.f.Header.GUID] {
+				nv.files = append(nv.files, &fnode{f: n.f, kids: minusGuids(n.kids, gs)})
+			}
+		}
+		r[i] = nv
+	}
+	return r
+}
+
+// pre-order over all files; descend(n) says whether to enter n's nested volumes
+func walk(s []*vnode, visit func(n *fnode) (descend bool)) {
+	for _, v := range s {
+		for _, n := range v.files {
+			if visit(n) {
+				walk(n.kids, visit)
 			}
 		}
 	}
-	return r
 }
 
 func predOf(code uint64) visitors.FindPredicate {
@@ -196,31 +333,55 @@ func predOf(code uint64) visitors.FindPredicate {
 	}
 }
 
-// candidate GUIDs = GUIDs of the files the predicate selects, in tree order
+// candidate GUIDs = GUIDs of the files the predicate selects, in pre-order over
+// all depths (computed here without the Find visitor)
 func candidates(t *tree, p visitors.FindPredicate) []guid.GUID {
 	var r []guid.GUID
-	for _, v := range t.orig {
-		for _, f := range v {
-			if p(f) {
-				r = append(r, f.Header.GUID)
-			}
+	walk(t.orig, func(n *fnode) bool {
+		if p(n.f) {
+			r = append(r, n.f.Header.GUID)
 		}
-	}
+		return true
+	})
 	return r
 }
 
 // hypothesis of the theorems beyond "file objects are distinct": no PEIM file
 // (which Remove pads instead of deleting) carries a candidate's GUID
 func wfTree(t *tree, cands []guid.GUID) bool {
-	cs := map[guid.GUID]bool{}
+	cs := guidSet(cands)
+	ok := true
+	walk(t.orig, func(n *fnode) bool {
+		if n.f.Header.Type == uefi.FVFileTypePEIM && cs[n.f.Header.GUID] {
+			ok = false
+		}
+		return true
+	})
+	return ok
+}
+
+// hypothesis of the monotone theorem: every required GUID has an occurrence
+// that is not nested in (or equal to) a file carrying a candidate GUID outside
+// the required set
+func reqSafe(t *tree, cands, req []guid.GUID) bool {
+	rq := guidSet(req)
+	bad := map[guid.GUID]bool{}
 	for _, g := range cands {
-		cs[g] = true
+		if !rq[g] {
+			bad[g] = true
+		}
 	}
-	for _, v := range t.orig {
-		for _, f := range v {
-			if f.Header.Type == uefi.FVFileTypePEIM && cs[f.Header.GUID] {
-				return false
-			}
+	safe := map[guid.GUID]bool{}
+	walk(t.orig, func(n *fnode) bool {
+		if bad[n.f.Header.GUID] {
+			return false
+		}
+		safe[n.f.Header.GUID] = true
+		return true
+	})
+	for _, g := range req {
+		if !safe[g] {
+			return false
 		}
 	}
 	return true
@@ -231,10 +392,10 @@ func wfTree(t *tree, cands []guid.GUID) bool {
 var errScripted = errors.New("scripted test error")
 
 type call struct {
-	g     guid.GUID      // candidate announced by "Trying to remove"
-	pre   [][]*uefi.File // tree when the attempt was announced
-	shown [][]*uefi.File // tree shown to Test
-	ok    bool           // what Test answered
+	g     guid.GUID // candidate announced by "Trying to remove"
+	pre   snapT     // tree when the attempt was announced
+	shown snapT     // tree shown to Test
+	ok    bool      // what Test answered
 	err   error
 }
 
@@ -243,7 +404,7 @@ func (c *call) accepted() bool { return c.ok && c.err == nil }
 type logHook struct {
 	t      *tree
 	curG   guid.GUID
-	curPre [][]*uefi.File
+	curPre snapT
 }
 
 func (h *logHook) Write(p []byte) (int, error) {
@@ -262,7 +423,7 @@ type runResult struct {
 	err      error
 	calls    []*call
 	removals []guid.GUID
-	final    [][]*uefi.File
+	final    snapT
 }
 
 func runCleaner(pol uint64, pc uint64, t *tree, test func(k int, t *tree) (bool, error)) *runResult {
@@ -308,14 +469,14 @@ func scripted(script string) func(int, *tree) (bool, error) {
 }
 
 func present(t *tree, g guid.GUID) bool {
-	for _, fv := range t.fvs {
-		for _, f := range fv.Files {
-			if f.Header.GUID == g {
-				return true
-			}
+	found := false
+	walk(t.snap(), func(n *fnode) bool {
+		if n.f.Header.GUID == g {
+			found = true
 		}
-	}
-	return false
+		return true
+	})
+	return found
 }
 
 func reqList(s string) []guid.GUID {
@@ -516,16 +677,15 @@ func pUndone(a []string) string {
 	return "ok"
 }
 
-// P p_mono pol pred img req: the tester boots iff every GUID of req is present
-// and the original boots => every candidate outside req is reported and gone,
-// nothing of req is reported, the result boots
+// P p_mono pol pred img req: the tester boots iff every GUID of req is present,
+// and every required GUID has an occurrence not nested in a candidate outside
+// req (without nesting: the original boots) => every candidate outside req is
+// reported and gone, nothing of req is reported, the result boots
 func pMono(a []string) string {
 	req := reqList(a[3])
 	t0 := buildTree(a[2])
-	for _, g := range req {
-		if !present(t0, g) {
-			return "skip"
-		}
+	if !reqSafe(t0, candidates(t0, predOf(UnN(a[1]))), req) {
+		return "skip"
 	}
 	t, r, cands, ok := propRun(a, bootsIff(req))
 	if !ok || len(cands) == 0 {
@@ -623,6 +783,43 @@ func scripts(maxLen int) []string {
 	return out
 }
 
+// a random volume: files over GUID ids 1..ng; some files hold nested volumes
+func randVol(r *Rng, ng, depth int, used map[int]bool) string {
+	nf := r.Pick(0, 1, 1, 2, 2, 3, 4, 5)
+	if depth > 0 {
+		nf = r.Pick(0, 1, 1, 2, 2, 3)
+	}
+	fs := make([]string, nf)
+	for j := range fs {
+		g := r.Range(1, ng)
+		typ := uint64(r.Pick(7, 7, 7, 7, 7, 7, 6, 2, 5, 0xF0))
+		size := uint64(r.Pick(0x20, 0x20, 0x20, 0x18, 0x40, 0x28, 0x17, 0))
+		if typ == 0xF0 {
+			fs[j] = "ffffffffffffffffffffffffffffffff.f0." + N(size)
+			continue
+		}
+		fs[j] = gHex(g) + "." + N(typ) + "." + N(size)
+		used[g] = true
+		// a UI section: an ordinary name, or one that spells the GUID of
+		// some file of the tree (possibly this one)
+		if r.Chance(1, 6) {
+			fs[j] += ".n"
+		} else if r.Chance(1, 4) {
+			fs[j] += "." + uiField(r, gHex(r.Range(1, ng)))
+		}
+		// FV-image sections: nested volumes, under drivers and other files
+		if depth < 3 && r.Chance(1, 5+3*depth) {
+			nk := r.Pick(1, 1, 1, 2)
+			ks := make([]string, nk)
+			for k := range ks {
+				ks[k] = randVol(r, ng, depth+1, used)
+			}
+			fs[j] += "<" + strings.Join(ks, "/") + ">"
+		}
+	}
+	return strings.Join(fs, ",")
+}
+
 // a random tree and the GUID ids used in it
 func randImage(r *Rng) (string, []int) {
 	nv := r.Pick(1, 2, 2, 3, 3, 4)
@@ -630,27 +827,7 @@ func randImage(r *Rng) (string, []int) {
 	used := map[int]bool{}
 	vols := make([]string, nv)
 	for i := range vols {
-		nf := r.Pick(0, 1, 1, 2, 2, 3, 4, 5)
-		fs := make([]string, nf)
-		for j := range fs {
-			g := r.Range(1, ng)
-			typ := uint64(r.Pick(7, 7, 7, 7, 7, 7, 6, 2, 5, 0xF0))
-			size := uint64(r.Pick(0x20, 0x20, 0x20, 0x18, 0x40, 0x28, 0x17, 0))
-			if typ == 0xF0 {
-				fs[j] = "ffffffffffffffffffffffffffffffff.f0." + N(size)
-			} else {
-				fs[j] = gHex(g) + "." + N(typ) + "." + N(size)
-				used[g] = true
-				// a UI section: an ordinary name, or one that spells the GUID of
-				// some file of the tree (possibly this one)
-				if r.Chance(1, 6) {
-					fs[j] += ".n"
-				} else if r.Chance(1, 4) {
-					fs[j] += "." + uiField(r, gHex(r.Range(1, ng)))
-				}
-			}
-		}
-		vols[i] = strings.Join(fs, ",")
+		vols[i] = randVol(r, ng, 0, used)
 	}
 	var gs []int
 	for g := 1; g <= 6; g++ {
@@ -749,6 +926,42 @@ func gen(r *Rng, tier string, emit Emit) {
 					for _, k := range []string{"0", "1", "2"} {
 						emit("C", "remove", "ff", "0", sel, img, k)
 					}
+				}
+			}
+		}
+	}
+	// 1c. nesting: volumes inside FV-image sections of files — under a candidate
+	// driver (removing it takes the nested drivers along; they stay candidates),
+	// under a non-candidate, two levels deep, two volumes in one file, the same
+	// GUID nested and outside, the same GUID last in a nested and an outer volume
+	nested := []string{
+		"1.7.20<2.7.20,3.7.20>,4.7.20/5.7.20",
+		"8.2.20<1.7.20,2.7.20>/3.7.20",
+		"1.7.20<2.7.20<3.7.20,1.7.20>,4.7.20>/3.7.20",
+		"1.7.20<3.7.20,2.7.20>,3.7.20/5.7.20",
+		"1.7.20<2.7.20,3.7.20>,3.7.20",
+		"1.7.20<2.7.20/3.7.20,2.7.20>,4.7.20",
+		"4.7.20,1.7.20<>/2.2.20<3.7.20<4.7.20>>",
+		"1.7.20<2.6.20,3.7.20.u1>/2.7.20",
+	}
+	sc1c := scripts(4)
+	if thorough {
+		sc1c = scripts(7)
+	}
+	for _, img := range nested {
+		for _, s := range sc1c {
+			all("ff", "0", img, s)
+		}
+		for _, req := range []string{"-", "1", "1,5", "5", "2", "3", "1,3", "4", "2,8"} {
+			emit("C", "cleanmono", "ff", "0", img, req)
+			emit("P", "p_mono", "ff", "0", img, req)
+			emit("C", "cleanmono", "ff", "2", img, req)
+			emit("P", "p_mono", "ff", "2", img, req)
+		}
+		for _, sel := range []string{"g1", "g2", "g3", "r1", "p0"} {
+			for _, pad := range []string{"0", "1"} {
+				for _, k := range []string{"0", "1", "3"} {
+					emit("C", "remove", "ff", pad, sel, img, k)
 				}
 			}
 		}
